@@ -280,6 +280,9 @@ func c06Scenarios(tier string) []*world.Scenario {
 		mk("del", append([]string{other}, ks...), nil)
 		mk("mset", append(append([]string{}, ks...), other), append(append([]string{}, vs...), "w"))
 	}
+	// the fragments of pipelined split MSETs on their way to a node that reads slowly (more than 64 KiB parked, drained in
+	// pieces, further fragments queued meanwhile): the node receives exactly the fragments
+	out = append(out, SlowBackendOverflow("C06", 5, 40000, 2))
 	const sbatch = 40
 	for i := 0; i < len(sweep); i += sbatch {
 		j := i + sbatch
